@@ -40,6 +40,15 @@ def run(tier):
         rep.part('tie-focused (%d athletes, %d regular, %d jump-off heights)' % (n, R, J), wall_s=round(time.time() - t0, 1), **tot)
         for sig, hist, msg in viol:
             rep.add_violation(Violation(sig, dict(bounds=[n, R, J], history=hjmc.fmt_hist(hist)), msg))
+    # larger fields: every multiset of n cards from the reduced card set
+    for (n, R, nc) in ([(4, 2, None), (5, 1, None), (6, 1, None)] if tier == 'quick' else [(4, 2, None), (5, 2, None), (4, 3, None), (6, 1, None), (6, 2, 12), (7, 1, None)]):
+        t0 = time.time()
+        tot, viol = hjmc.placing_enumerate(n, R, nc)
+        for k in dt:
+            dt[k] += tot[k]
+        rep.part('larger fields (%d athletes, %d regular heights + a closing one, %s reduced cards)' % (n, R, tot['reduced_cards']), wall_s=round(time.time() - t0, 1), **tot)
+        for sig, hist, msg in viol:
+            rep.add_violation(Violation(sig, dict(bounds=[n, R + 1, 1], history=hjmc.fmt_hist(hist)), msg))
     # the tie-focused enumeration once more with the heights passed as binary floats / two-place Decimals at 1 cm steps
     for (n, R, J), codec in ([((3, 2, 2), 'float-cm')] if tier == 'quick' else [((3, 2, 2), 'float-cm'), ((3, 2, 2), 'decimal-cm'), ((2, 3, 2), 'float-cm')]):
         t0 = time.time()
